@@ -130,8 +130,13 @@ class KernelFacts:
             return
         Vn, VIn = V[0], VI[0]
         f = found_v[Vn]
+        def peeled(arr):
+            # the last iteration written out after a loop that stops one short: a restructuring this template does not follow
+            top = [st_ for st_ in cf.body if isinstance(st_, CAssign) and isinstance(st_.target, ast.Subscript) and unparse(st_.target.value) == arr]
+            return bool(top)
         self.ob('V', f[0] == vf and f[1] == '%s[%s]' % (Gk, f[7]) and f[2] == [nu] + vargs_extra and f[3] == '0' and f[4] == Ek and f[5],
-                '%s[%s] = %s(%s, %s) for %s in [%s, %s)' % (Vn, f[7], f[0], f[1], ', '.join(f[2]), f[7], f[3], f[4]), f[6])
+                '%s[%s] = %s(%s, %s) for %s in [%s, %s)' % (Vn, f[7], f[0], f[1], ', '.join(f[2]), f[7], f[3], f[4]) +
+                (' (loop with a peeled iteration: not recognised)' if f[4] != Ek and peeled(Vn) else ''), f[6])
         f = found_v[VIn]
         hi_ok = tr(ast.parse(f[4], mode='eval').body).equals(parse_expr('%s - 1' % Ek))
         self.ob('VInt', f[0] == vf and f[1] == '%s[%s]' % (gInt, f[7]) and f[2] == [nu] + vargs_extra and f[3] == '0' and hi_ok and f[5],
@@ -269,8 +274,9 @@ class KernelFacts:
             oki = tr(b.value.left.slice).equals(index_poly(lv))
         except AlgebraError:
             oki = False
+        peel_r = unparse(lp.cond.comparators[0]) != Ek and any(isinstance(st_, CAssign) and isinstance(st_.target, ast.Subscript) and unparse(st_.target.value) == R for st_ in (inner if D > 1 else cf.body))
         self.ob('rhs', okr and oki, '%s[%s] = phi[%s]/%s for %s in [0,%s); C-order index expected %s' % (R, unparse(b.target.slice), unparse(b.value.left.slice), unparse(b.value.right), lv,
-                unparse(lp.cond.comparators[0]), index_poly(lv).canon()), b.line)
+                unparse(lp.cond.comparators[0]), index_poly(lv).canon()) + (' (loop with a peeled iteration: not recognised)' if peel_r else ''), b.line)
         roles[R] = 'r'
         # ---- boundary terms ------------------------------------------------------------------------------------------------------
         ifs = [st for st in inner if isinstance(st, CIf)]
@@ -373,7 +379,12 @@ class KernelFacts:
         need = {'dx': -1, 'dfactor': 0, 'xInt': -1, 'MInt': -1, 'V': 0, 'VInt': -1, 'delj': -1, 'a': 0, 'b': 0, 'c': 0, 'r': 0, 'temp': 0}
         for arr, role in sorted(roles.items()):
             if arr not in mallocs:
-                self.ob('memory.%s' % arr, False, 'array %s (role %s) is not allocated with malloc in this function' % (arr, role))
+                # carved out of one larger allocation (pointer arithmetic on a workspace): sizes and overlap are not tracked here
+                carved = any(isinstance(st_, CDecl) and st_.name == arr and st_.pointer and st_.init is not None and not (isinstance(st_.init, ast.Call) and unparse(st_.init.func) == 'malloc')
+                             for st_ in cf.walk()) or any(isinstance(st_, CAssign) and unparse(st_.target) == arr and not (isinstance(st_.value, ast.Call) and unparse(st_.value.func) == 'malloc')
+                                                          for st_ in cf.walk())
+                self.ob('memory.%s' % arr, False, ('allocation of array %s (role %s) not recognised: it points into another allocation' % (arr, role)) if carved else
+                        'array %s (role %s) is not allocated with malloc in this function' % (arr, role))
                 continue
             cnt, line = mallocs[arr]
             want = Rat.atom(Ek) + Rat.const(need[role])
